@@ -10,7 +10,7 @@ network decides (does `f.txt` exist, is a connection pending) selects one of the
 errno is not constrained, 0 included) appears only where success and failure have the same footprint and the same
 table; `Err.nz` is "an errno other than 0".
 
-Finding switch (DESIGN §8): `fixed = false` is sock_recv as it is on the pinned tree (F49: with RI_RECV_PEEK the
+Finding switch (DESIGN §8): `fixed = false` is sock_recv as it is on the pinned tree (F61: with RI_RECV_PEEK the
 first iovec is used without looking at ri_data_len, and `ri_data + 4` is computed in 32 bits), `fixed = true` the
 repaired variant.
 -/
@@ -207,10 +207,12 @@ def fdReaddir (h : Host) (fds : Fds) (m : Mem) (fd buf bufLen cookie res : Nat) 
   | none => rE ebadf
   | some k =>
     if !k.isDir then rE ebadf else                  -- ENOTDIR is mapped to EBADF
-    -- DirentCache.Read on a fresh cache: countRead = 0
-    if cookie > 0 then rE enoent else
+    let all := listing h k
+    -- DirentCache.Read: on a fresh cache countRead = 0; on a completely read one countRead = len(all) and a
+    -- cookie of 0 rewinds (dump the cache, read again)
+    if cookie > (if h.cacheFull then all.length else 0) then rE enoent else
     let maxDirEntries := w32 (w32 (bufLen / DirentSize + 1) + 1)
-    let names := (listing h k).take maxDirEntries
+    let names := (all.drop cookie).take maxDirEntries
     match maxDirents names bufLen with
     | none => rE .panic
     | some (bufToWrite, direntCount, truncatedLen) =>
@@ -326,16 +328,21 @@ def sockRecv (fixed : Bool) (fds : Fds) (m : Mem) (fd iovs cnt riFlags res roFla
     if f / 4 ≠ 0 then rE enotsup else         -- anything but RI_RECV_PEEK | RI_RECV_WAITALL
     if f % 2 = 1 then
       -- RI_RECV_PEEK: the first iovec only
-      if fixed && (decide (cnt = 0) || decide (iovs + 8 > 4294967296)) then rE einval else
+      let done := fun (ws : List Wr) =>
+        ({ err := .errno 0, writes := ws ++ optRegion m res 4 ++
+            (if m.has roFlags 2 then [Wr.bytes roFlags [0, 0]] else []) } : Res)
+      -- repaired variant: no iovec, nothing to peek into (ro_datalen = 0); the iovec is read as one 8-byte access
+      if fixed && decide (cnt = 0) then
+        [{ err := .errno 0, writes := (if m.has res 4 then [Wr.bytes res (bytesLE 4 0)] else []) ++
+            (if m.has roFlags 2 then [Wr.bytes roFlags [0, 0]] else []) }] else
+      if fixed && !m.has iovs 8 then rE einval else
       if !m.has iovs 4 then rE einval else
-      let p4 := w32 (iovs + 4)
+      let p4 := if fixed then iovs + 4 else w32 (iovs + 4)
       if !m.has p4 4 then rE einval else
       let addr := le32 m iovs
       let l := le32 m p4
       if !m.has addr l then rE einval else
-      [{ err := .nz },
-       { err := .errno 0, writes := [Wr.region addr l] ++ optRegion m res 4 ++
-           (if m.has roFlags 2 then [Wr.bytes roFlags [0, 0]] else []) }]
+      [{ err := .nz }, done [Wr.region addr l]]
     else
       let iovsStop := w32 (cnt * 8)
       if !m.has iovs iovsStop then rE efault else
@@ -406,7 +413,7 @@ def call1 (fixed : Bool) (h : Host) (fds : Fds) (m : Mem) (fn : String) (a : Lis
   | _, _ => none
 
 /-- the 24 functions of this file; 32-bit parameters are reduced with `w32`, 64-bit ones with `% 2^64` -/
-def call2 (fixed : Bool) (h : Host) (fds : Fds) (m : Mem) (fn : String) (a : List Nat) : Option (List Res) :=
+def call2 (fixedRecv : Bool) (h : Host) (fds : Fds) (m : Mem) (fn : String) (a : List Nat) : Option (List Res) :=
   match fn, a with
   | "fd_readdir", [fd, b, l, c, r] => some (fdReaddir h fds m (w32 fd) (w32 b) (w32 l) (c % W64) (w32 r))
   | "path_open", [fd, _, p, l, o, _, _, _, r] => some (pathOpen fds m (w32 fd) (w32 p) (w32 l) (w32 o) (w32 r))
@@ -428,17 +435,18 @@ def call2 (fixed : Bool) (h : Host) (fds : Fds) (m : Mem) (fn : String) (a : Lis
   | "path_symlink", [o, ol, fd, n, nl] => some (pathSymlink fds m (w32 o) (w32 ol) (w32 fd) (w32 n) (w32 nl))
   | "path_link", [fd, _, p, l, fd2, p2, l2] => some (pathOp2 fds m (w32 fd) (w32 p) (w32 l) (w32 fd2) (w32 p2) (w32 l2))
   | "sock_accept", [fd, _, r] => some (sockAccept fds m (w32 fd) (w32 r))
-  | "sock_recv", [fd, iovs, cnt, f, r, r2] => some (sockRecv fixed fds m (w32 fd) (w32 iovs) (w32 cnt) (w32 f) (w32 r) (w32 r2))
+  | "sock_recv", [fd, iovs, cnt, f, r, r2] => some (sockRecv fixedRecv fds m (w32 fd) (w32 iovs) (w32 cnt) (w32 f) (w32 r) (w32 r2))
   | "sock_send", [fd, iovs, cnt, f, r] => some (sockSend fds m (w32 fd) (w32 iovs) (w32 cnt) (w32 f) (w32 r))
   | "sock_shutdown", [fd, how] => some (sockShutdown fds (w32 fd) (w32 how))
   | "proc_raise", [_] => some (rE enosys)
   | _, _ => none
 
-/-- all 46 functions: the alternatives of a call (`fixed` selects the repaired variants of poll_oneoff, sock_recv) -/
-def call (fixed : Bool) (h : Host) (fds : Fds) (m : Mem) (fn : String) (a : List Nat) : Option (List Res) :=
+/-- all 46 functions: the alternatives of a call (`fixed` / `fixedRecv` select the repaired variants of poll_oneoff /
+sock_recv) -/
+def call (fixed fixedRecv : Bool) (h : Host) (fds : Fds) (m : Mem) (fn : String) (a : List Nat) : Option (List Res) :=
   match call1 fixed h fds m fn a with
   | some r => some [r]
-  | none => call2 fixed h fds m fn a
+  | none => call2 fixedRecv h fds m fn a
 
 /-- Output regions the signature designates, over the naturals (no wrap-around); mirror of `designated` in
 harness/cmd/hc15/spec.go (the harness compares the two tables on every generated case). -/
